@@ -1,6 +1,6 @@
 (** C03 — the theorems instantiated on the table generated from the Go sources (Gen/C03.v). *)
 From Coq Require Import List ZArith String Bool.
-From Paloma Require Import Auth.Discipline Auth.Ante Auth.AnteProofs.
+From Paloma Require Import Auth.Discipline Auth.Ante Auth.AnteProofs Auth.Objects Auth.ObjectsProofs Auth.Index.
 From Paloma Require Gen.C03.
 Import ListNotations.
 Open Scope Z_scope.
@@ -82,3 +82,41 @@ Proof.
   eapply tx_no_cross_principal_lemma; eauto.
   intros spec m Hin. destruct (H spec m Hin). apply table_spec_ok; assumption.
 Qed.
+
+(** * Second round: index writes and object histories on the shapes extracted from the code *)
+
+(** Per-run obligation: every store write whose key the sender chooses is guarded the way its
+    reviewed kind needs, and the guard the extractor found is keyed by the written index. *)
+Lemma index_writes_guarded_lemma : forallb (idx_ok Gen.C03.specs known_open) Gen.C03.index_rows = true.
+Proof. vm_compute. reflexivity. Qed.
+
+Lemma bind_guard_on_written_index_lemma : guard_on_written_index Gen.C03.code_shape = true.
+Proof. vm_compute. reflexivity. Qed.
+
+Lemma tf_import_admin_last_lemma : import_admin_last Gen.C03.code_shape = true.
+Proof. vm_compute. reflexivity. Qed.
+
+Lemma table_genesis_preserves_admin : forall s d, admin_of (tf_roundtrip Gen.C03.code_shape s) d = admin_of s d.
+Proof. apply genesis_preserves_admin_lemma. exact tf_import_admin_last_lemma. Qed.
+
+Lemma table_objects_history_admin : forall auth ops s q,
+  (forall op, In op ops -> signer auth op <> Some q) ->
+  forall d, admin_of s d = Some q -> admin_of (orun Gen.C03.code_shape ops s) d = Some q.
+Proof.
+  intros auth ops s q H d Had.
+  exact (objects_history_admin_lemma _ auth ops s q tf_import_admin_last_lemma H d Had).
+Qed.
+
+Lemma table_objects_history_binding : forall auth ops s,
+  (forall op, In op ops -> signer auth op <> Some auth) ->
+  forall e d, e2d s e = Some d -> e2d (orun Gen.C03.code_shape ops s) e = Some d.
+Proof.
+  intros auth ops s H e d Hb.
+  exact (objects_history_binding_lemma _ auth ops s bind_guard_on_written_index_lemma H e d Hb).
+Qed.
+
+Lemma table_objects_history_pending : forall auth ops s p,
+  wf_ids s ->
+  (forall op, In op ops -> signer auth op <> Some p) ->
+  forall tx e, pend s tx = Some (p, e) -> pend (orun Gen.C03.code_shape ops s) tx = Some (p, e).
+Proof. intros. eapply objects_history_pending_lemma; eauto. Qed.
